@@ -14,6 +14,7 @@ import (
 	"github.com/gr33nbl00d/caddy-revocation-validator/crl"
 
 	"verif/h/fw"
+	"verif/h/rt/vleveldb"
 	"verif/h/rt/vos"
 	"verif/h/rt/vsched"
 	"verif/h/world"
@@ -287,6 +288,9 @@ func c20Lifecycle(chk *fw.Check) int {
 								if reg != 0 {
 									chk.Violation("C20|work_dir-still-registered|"+sig, fmt.Sprintf("work_dir registration %q not released by Cleanup", name), nil)
 								}
+							}
+							if open := vleveldb.OpenPaths(); len(open) > 0 {
+								chk.Violation("C20|database-handle-open-after-cleanup|"+sig, fmt.Sprintf("cycle %d: %d database handle(s) still open after Cleanup: %v", cycle, len(open), open), nil)
 							}
 							_, tmps, other := ListDir(dir)
 							if len(tmps) > 0 || len(other) > 0 {
